@@ -56,7 +56,7 @@ def main():
         shutil.copy(demo, os.path.join(dest, 'demo.py'))
         head = sh('git -C /repo rev-parse --short HEAD', VERIF)[1].strip()
         meta = {
-            'id': sid, 'breaks_property': prop, 'round': 6, 'base_commit': head,
+            'id': sid, 'breaks_property': prop, 'round': int(os.environ.get('SEED_ROUND', '7')), 'base_commit': head,
             'needs_to_manifest': '(see the demonstration; summary to be filled in from the author report)',
             'author': 'independent sub-agent given only the property text and a scratch worktree (round 2: asked for '
                       'indirect causes rather than the most obvious edit)',
